@@ -506,6 +506,106 @@ Proof.
     reflexivity.
 Qed.
 
+(* ---- the same reference written directly on the ledger (no leap-array vocabulary) ---- *)
+Definition pass_amt (e : nev) : Z := match e with NPass _ b => b | _ => 0 end.
+Definition complete_amt (e : nev) : Z := match e with NComplete _ b _ _ => b | _ => 0 end.
+Definition rt_amt (e : nev) : Z := match e with NComplete _ _ rt _ => rt | _ => 0 end.
+
+(* sum of f over the ledger entries recorded at a clock reading in [lo, hi) *)
+Definition led_sum (f : nev -> Z) (L : list nev) (lo hi : Z) : Z :=
+  sumZ (map (fun e => if in_win lo hi (nev_time e) then f e else 0) L).
+(* smallest response time completed in [lo, hi), from DefaultStatisticMaxRt *)
+Definition led_min_rt (L : list nev) (lo hi : Z) : Z :=
+  fold_right (fun e acc => match e with
+                           | NComplete t _ rt _ => if in_win lo hi t then Z.min rt acc else acc
+                           | _ => acc end) DefaultStatisticMaxRt L.
+
+Lemma win_sum_cons ev x h lo hi :
+  win_sum ev (x :: h) lo hi
+  = (match x with SAdd t e c => if (e =? ev) && in_win lo hi t then c else 0 | SConc _ _ => 0 end) + win_sum ev h lo hi.
+Proof. reflexivity. Qed.
+
+Lemma led_sum_cons f e L lo hi :
+  led_sum f (e :: L) lo hi = (if in_win lo hi (nev_time e) then f e else 0) + led_sum f L lo hi.
+Proof. reflexivity. Qed.
+
+Lemma expand_sum_pass L lo hi : forall c, win_sum EvPass (expand c L) lo hi = led_sum pass_amt L lo hi.
+Proof.
+  induction L as [|e r IH]; intros c; [reflexivity|]. rewrite led_sum_cons.
+  destruct e as [t b|t b|t b rt err]; cbn [expand nev_time pass_amt].
+  - rewrite !win_sum_cons, IH. change (EvPass =? EvPass) with true. cbn [andb]. destruct (in_win lo hi t); lia.
+  - rewrite !win_sum_cons, IH. change (EvBlock =? EvPass) with false. cbn [andb]. destruct (in_win lo hi t); lia.
+  - destruct err; cbn [app]; rewrite !win_sum_cons, IH;
+      change (EvError =? EvPass) with false; change (EvRt =? EvPass) with false; change (EvComplete =? EvPass) with false;
+      cbn [andb]; destruct (in_win lo hi t); lia.
+Qed.
+
+Lemma expand_sum_complete L lo hi : forall c, win_sum EvComplete (expand c L) lo hi = led_sum complete_amt L lo hi.
+Proof.
+  induction L as [|e r IH]; intros c; [reflexivity|]. rewrite led_sum_cons.
+  destruct e as [t b|t b|t b rt err]; cbn [expand nev_time complete_amt].
+  - rewrite !win_sum_cons, IH. change (EvPass =? EvComplete) with false. cbn [andb]. destruct (in_win lo hi t); lia.
+  - rewrite !win_sum_cons, IH. change (EvBlock =? EvComplete) with false. cbn [andb]. destruct (in_win lo hi t); lia.
+  - destruct err; cbn [app]; rewrite !win_sum_cons, IH;
+      change (EvError =? EvComplete) with false; change (EvRt =? EvComplete) with false; change (EvComplete =? EvComplete) with true;
+      cbn [andb]; destruct (in_win lo hi t); lia.
+Qed.
+
+Lemma expand_sum_rt L lo hi : forall c, win_sum EvRt (expand c L) lo hi = led_sum rt_amt L lo hi.
+Proof.
+  induction L as [|e r IH]; intros c; [reflexivity|]. rewrite led_sum_cons.
+  destruct e as [t b|t b|t b rt err]; cbn [expand nev_time rt_amt].
+  - rewrite !win_sum_cons, IH. change (EvPass =? EvRt) with false. cbn [andb]. destruct (in_win lo hi t); lia.
+  - rewrite !win_sum_cons, IH. change (EvBlock =? EvRt) with false. cbn [andb]. destruct (in_win lo hi t); lia.
+  - destruct err; cbn [app]; rewrite !win_sum_cons, IH;
+      change (EvError =? EvRt) with false; change (EvRt =? EvRt) with true; change (EvComplete =? EvRt) with false;
+      cbn [andb]; destruct (in_win lo hi t); lia.
+Qed.
+
+Lemma expand_min_rt L lo hi : forall c, win_min_rt (expand c L) lo hi = led_min_rt L lo hi.
+Proof.
+  unfold win_min_rt, led_min_rt.
+  induction L as [|e r IH]; intros c; [reflexivity|].
+  destruct e as [t b|t b|t b rt err]; cbn [expand fold_right].
+  - change (EvPass =? EvRt) with false. cbn [andb]. apply IH.
+  - change (EvBlock =? EvRt) with false. cbn [andb]. apply IH.
+  - destruct err; cbn [app fold_right];
+      change (EvError =? EvRt) with false; change (EvRt =? EvRt) with true; change (EvComplete =? EvRt) with false;
+      cbn [andb]; rewrite IH; reflexivity.
+Qed.
+
+Lemma fmax_ext {A} (f g : A -> Z) l : (forall x, f x = g x) -> fmax f l = fmax g l.
+Proof. intros H. unfold fmax. induction l as [|x r IH]; cbn [fold_right]; [reflexivity|]. rewrite H, IH. reflexivity. Qed.
+
+(* INBOUND STATISTICS at clock [now], from the ledger alone.  Window = the vitv ms ending at the
+   end of the current array bucket (bucket length bl = gitv / gn), i.e. [hi - vitv, hi):
+     QPS          = (batches admitted in the window) / (vitv / 1000)
+     in flight    = admitted - completed entries so far
+     average RT   = (sum of response times in the window) div (batches completed), 0 if none
+     minimum RT   = smallest response time in the window, from 60000, at least 1
+     peak completion rate = (largest number of batches completed within one bucket of the
+                    window) * vn / vitv * 1000 *)
+Definition inbound_stats (gn gitv vn vitv : Z) (L : list nev) (now : Z) : readings :=
+  let bl := gitv / gn in
+  let hi := bstart bl now + bl in
+  let lo := hi - vitv in
+  {| rd_qps := (f_of_i64 (led_sum pass_amt L lo hi) / (f_of_u64 vitv / 1000))%float;
+     rd_conc := in_flight L;
+     rd_avg_rt := (let complete := led_sum complete_amt L lo hi in
+                   if complete <=? 0 then 0%float else f_of_i64 (Z.quot (led_sum rt_amt L lo hi) complete));
+     rd_min_rt := f_of_i64 (let m := led_min_rt L lo hi in if m <? 1 then 1 else m);
+     rd_max_complete := (f_of_i64 (fmax (fun b => led_sum complete_amt L b (b + bl)) (bucket_starts lo bl (Z.to_nat (vitv / bl))))
+                         * f_of_u64 vn / f_of_u64 vitv * 1000)%float |}.
+
+Lemma ref_readings_ledger gn gitv vn vitv L now :
+  ref_readings gn gitv vn vitv L now = inbound_stats gn gitv vn vitv L now.
+Proof.
+  unfold ref_readings, inbound_stats, win_max_bucket.
+  rewrite !expand_sum_pass, !expand_sum_complete, !expand_sum_rt, !expand_min_rt.
+  rewrite (fmax_ext _ (fun b => led_sum complete_amt L b (b + gitv / gn))) by (intros; apply expand_sum_complete).
+  reflexivity.
+Qed.
+
 (* ------------------------------------------------------------------------------------------ *)
 (* Part D: the decision *)
 
@@ -699,10 +799,10 @@ Hypothesis Hnow : hist_last t0 ops <= t < two62'.
 
 Let s0 := sys_state0 gn gitv vn vitv t0.
 Let s := sys_after s0 ops.
-Let rd := ref_readings gn gitv vn vitv (ledger s0 ops) t.
+Let rd := inbound_stats gn gitv vn vitv (ledger s0 ops) t.
 
 Lemma decide_readings : node_readings (st_node s) t = rd.
-Proof. apply (run_readings gn gitv vn vitv t0 Hgn Hgd Hgi Hvn Hvitv Hck Ht0 ops t Hm Hlen Hnow). Qed.
+Proof. unfold rd. rewrite <- ref_readings_ledger. apply (run_readings gn gitv vn vitv t0 Hgn Hgd Hgi Hvn Hvitv Hck Ht0 ops t Hm Hlen Hnow). Qed.
 
 Theorem inbound_iff b ord : covers ord (sys_rules (st_rules s)) ->
   (blocked_system (snd (sys_step s (OEntry t true b ord))) <->
@@ -756,7 +856,95 @@ Qed.
 (* the in-flight reference is the number of inbound entries admitted and not yet exited *)
 Theorem inflight_is_live : rd_conc rd = live_inbound s.
 Proof.
+  change (rd_conc rd) with (rd_conc (ref_readings gn gitv vn vitv (ledger s0 ops) t)).
   apply (run_readings gn gitv vn vitv t0 Hgn Hgd Hgi Hvn Hvitv Hck Ht0 ops t Hm Hlen Hnow).
 Qed.
 
 End Thm.
+
+(* ------------------------------------------------------------------------------------------ *)
+(* the state's rule set and readings are the latest inputs *)
+
+Definition loads (ops : list sop) : list (option (list (option srule))) :=
+  flat_map (fun o => match o with OLoad l => [l] | _ => [] end) ops.
+
+Fixpoint last_load (d : float) (ops : list sop) : float :=
+  match ops with [] => d | OSetLoad f :: r => last_load f r | _ :: r => last_load d r end.
+Fixpoint last_cpu (d : float) (ops : list sop) : float :=
+  match ops with [] => d | OSetCpu f :: r => last_cpu f r | _ :: r => last_cpu d r end.
+
+Lemma step_inputs s o :
+  st_rules (fst (sys_step s o)) = match o with OLoad l => fst (sys_load (st_rules s) l) | _ => st_rules s end /\
+  st_load (fst (sys_step s o)) = match o with OSetLoad f => f | _ => st_load s end /\
+  st_cpu (fst (sys_step s o)) = match o with OSetCpu f => f | _ => st_cpu s end.
+Proof.
+  destruct o as [l|f|f|t inb b ord|t k err|t]; cbn [sys_step]; auto.
+  - destruct (sys_load (st_rules s) l). auto.
+  - destruct (decide s t inb ord) as [[r v]|]; auto.
+Qed.
+
+Lemma after_inputs ops : forall s,
+  st_rules (sys_after s ops) = fst (sys_run (st_rules s) (loads ops)) /\
+  st_load (sys_after s ops) = last_load (st_load s) ops /\
+  st_cpu (sys_after s ops) = last_cpu (st_cpu s) ops.
+Proof.
+  induction ops as [|o r IH]; intros s; [cbn; auto|].
+  rewrite sys_after_cons. destruct (IH (fst (sys_step s o))) as (A & B & C).
+  destruct (step_inputs s o) as (A1 & B1 & C1). rewrite A, B, C, A1, B1, C1.
+  destruct o; cbn [loads flat_map app last_load last_cpu]; auto.
+  fold (loads r). rewrite sys_run_cons. cbn [fst]. auto.
+Qed.
+
+(* the loaded rules are the valid, non-nil members of the list given to the latest LoadRules
+   call that reported a change (C13's theorem for the system manager) *)
+Lemma loaded_are_valid_latest gn gitv vn vitv t0 ops :
+  let s := sys_after (sys_state0 gn gitv vn vitv t0) ops in
+  sys_rules (st_rules s)
+  = filter sys_valid (nonnil (sys_latest_from [] (combine (loads ops) (snd (sys_run sys_init (loads ops)))))) /\
+  st_load s = last_load NotRetrieved ops /\ st_cpu s = last_cpu NotRetrieved ops.
+Proof.
+  cbn zeta. destruct (after_inputs ops (sys_state0 gn gitv vn vitv t0)) as (A & B & C).
+  rewrite A, B, C. cbn [sys_state0 st_rules st_load st_cpu]. split; [|auto].
+  apply sys_enforced_eq_valid_latest.
+Qed.
+
+(* ------------------------------------------------------------------------------------------ *)
+(* reading of "has reached its trigger": for non-NaN operands, not (v < trigger) is trigger <= v
+   (uses the specification of PrimFloat comparisons, FloatAxioms) *)
+Lemma SFcompare_antisym x y : SFcompare y x = option_map CompOpp (SFcompare x y).
+Proof.
+  destruct x as [sx|sx| |sx mx ex], y as [sy|sy| |sy my ey]; cbn [SFcompare option_map CompOpp]; try reflexivity;
+   try (destruct sx; reflexivity); try (destruct sy; reflexivity); try (destruct sx, sy; reflexivity).
+  change (Pos.compare_cont Eq my mx) with (Pos.compare my mx).
+  change (Pos.compare_cont Eq mx my) with (Pos.compare mx my).
+  rewrite (Z.compare_antisym ex ey), (Pos.compare_antisym mx my).
+  destruct sx, sy; cbn; try reflexivity; destruct (ex ?= ey)%Z; cbn; try reflexivity;
+   destruct (mx ?= my)%positive; reflexivity.
+Qed.
+
+Definition not_nan (f : float) : Prop := (f =? f)%float = true.
+
+Lemma SFcompare_some x y : SFcompare x x <> None -> SFcompare y y <> None -> SFcompare x y <> None.
+Proof. destruct x, y; cbn; congruence. Qed.
+
+Lemma not_ltb_is_leb (v thr : float) :
+  not_nan v -> not_nan thr -> negb (v <? thr)%float = (thr <=? v)%float.
+Proof.
+  unfold not_nan. intros Hv Ht. rewrite FloatAxioms.eqb_spec in Hv, Ht.
+  rewrite FloatAxioms.ltb_spec, FloatAxioms.leb_spec. unfold SFeqb, SFltb, SFleb in *.
+  rewrite (SFcompare_antisym (Prim2SF v) (Prim2SF thr)).
+  assert (N : SFcompare (Prim2SF v) (Prim2SF thr) <> None).
+  { apply SFcompare_some; intros E; rewrite E in *; discriminate. }
+  destruct (SFcompare (Prim2SF v) (Prim2SF thr)) as [[| |]|]; try reflexivity. congruence.
+Qed.
+
+(* for the three statistics-based metric types and non-NaN values: violated iff trigger <= value *)
+Lemma violated_reached rd load cpu r :
+  s_metric r = MtInboundQPS \/ s_metric r = MtConcurrency \/ s_metric r = MtAvgRT ->
+  not_nan (metric_value rd load cpu r) -> not_nan (s_trigger r) ->
+  violated rd load cpu r = (s_trigger r <=? metric_value rd load cpu r)%float.
+Proof.
+  intros Hm Hv Ht. unfold violated, metric_value in *.
+  destruct Hm as [E|[E|E]]; rewrite E in *; cbn [Z.eqb MtInboundQPS MtConcurrency MtAvgRT Pos.eqb] in *;
+    apply not_ltb_is_leb; assumption.
+Qed.
